@@ -60,9 +60,10 @@ def run_impl(case, sets=None):
             tpv = res.test_pvalue()
             obs = {'thr': bits(test.threshold), 'verdict': bool(res), 'datasets': []}
             if len(res.tstud) != ndat or oracles.shape != (ndat,) + shape \
-                    or not isinstance(tpv, (list, tuple)) or len(tpv) != ndat or len(res.pvalue) != ndat:
+                    or not isinstance(tpv, (list, tuple, np.ndarray)) or len(tpv) != ndat \
+                    or len(res.pvalue) != ndat:
                 obs['malformed'] = (f'tstud {len(res.tstud)}, oracles {oracles.shape}, '
-                                    f'test_pvalue {type(tpv).__name__}:{tpv if not isinstance(tpv, list) else len(tpv)}')
+                                    f'test_pvalue() = {tpv if not isinstance(tpv, (list, tuple, np.ndarray)) else len(tpv)!r}')
                 return obs
             for d in range(ndat):
                 tst = np.asarray(res.tstud[d], dtype=float)
@@ -100,17 +101,25 @@ def expected_pvalue(tabs, ndf):
     return 2.0 * float(special.stdtr(ndf, -tabs))
 
 
-def expected_t(v1, e1, v2, e2):
-    '''|v1 - v2| / quadratic sum of the errors, signed; documented conventions: 0/0 -> 0,
-    equal values with both errors undefined -> 0, both values undefined -> 0'''
+def expected_t(v1, e1, v2, e2, hypot=False):
+    '''(v1 - v2) / quadratic sum of the errors, signed; documented conventions: 0/0 -> 0,
+    equal values with both errors undefined -> 0, both values undefined -> 0.  The
+    quadratic sum is sqrt(e1*e1 + e2*e2), or math.hypot (no spurious under/overflow).'''
     if v1 != v1 and v2 != v2:
         return 0.0
     with np.errstate(all='ignore'):
         num = float(np.float64(v1) - np.float64(v2))
-        den = math.sqrt(e1 * e1 + e2 * e2) if not (math.isinf(e1) or math.isinf(e2)) \
-            else (NAN if (e1 != e1 or e2 != e2) else INF)
-    if e1 != e1 or e2 != e2:
+    if hypot and (math.isinf(e1) or math.isinf(e2)):
+        den = INF                                  # C99 hypot(inf, NaN) = inf
+    elif e1 != e1 or e2 != e2:
         den = NAN
+    elif math.isinf(e1) or math.isinf(e2):
+        den = INF
+    elif hypot:
+        den = math.hypot(e1, e2)
+    else:
+        sq = e1 * e1 + e2 * e2
+        den = math.sqrt(sq) if not math.isinf(sq) else INF
     if num == 0 and den == 0:
         return 0.0
     if num == 0 and e1 != e1 and e2 != e2:
@@ -122,6 +131,18 @@ def expected_t(v1, e1, v2, e2):
     if math.isinf(num) and math.isinf(den):
         return NAN
     return num / den
+
+
+def extreme_scale(case):
+    '''some bin where e*e under/overflows so that sqrt(e1^2+e2^2) and hypot(e1,e2) differ'''
+    ref_v, ref_e = [[unbits(b) for b in x] for x in case['datasets'][0]]
+    for v, e in case['datasets'][1:]:
+        for i, (bv, be) in enumerate(zip(v, e)):
+            a = expected_t(ref_v[i], ref_e[i], unbits(bv), unbits(be))
+            b = expected_t(ref_v[i], ref_e[i], unbits(bv), unbits(be), hypot=True)
+            if not rel_close(a, b, 1e-14):
+                return True
+    return False
 
 
 def rel_close(a, b, rtol):
@@ -164,6 +185,9 @@ def oracle(ctx, case, obs):
             p = unbits(dobs['p'][i])
             where = f'bin {i} of dataset {d}'
             texp = expected_t(ref_v[i], ref_e[i], dv[i], de[i])
+            if not rel_close(t, texp, 1e-9):      # an overflow-free quadratic sum is as good
+                thyp = expected_t(ref_v[i], ref_e[i], dv[i], de[i], hypot=True)
+                texp = thyp if rel_close(t, thyp, 1e-9) else texp
             if not rel_close(t, texp, 1e-9):
                 ctx.oracle_failure(f'{where}: t = {t!r}, expected (v1-v2)/sqrt(e1^2+e2^2) = {texp!r}' + tag,
                                    case, key='t-value')
@@ -227,9 +251,10 @@ def metamorphic(ctx, case, obs):
         if 'raise' in sw or 'malformed' in sw:
             ctx.oracle_failure('swapped comparison raises / is malformed' + tag, case, key='symmetry')
             return
-        a = [bits(abs(unbits(b))) for b in dobs['t']]
-        b = [bits(abs(unbits(b))) for b in sw['datasets'][0]['t']]
-        if (a != b and case['shape']) or dobs['oracles'] != sw['datasets'][0]['oracles'] \
+        a = [abs(unbits(b)) for b in dobs['t']]
+        b = [abs(unbits(b)) for b in sw['datasets'][0]['t']]
+        if not all(rel_close(x, y, 1e-12) for x, y in zip(a, b)) \
+                or dobs['oracles'] != sw['datasets'][0]['oracles'] \
                 or all(dobs['oracles']) != sw['verdict']:
             ctx.oracle_failure(f'comparison of dataset {d} is not symmetric: |t| / oracles differ when the two '
                                f'datasets are swapped' + tag, case, key='symmetry')
@@ -242,7 +267,8 @@ def metamorphic(ctx, case, obs):
                              for v, e in sets])
         if sc.get('datasets') is None or [x['oracles'] for x in sc['datasets']] != \
                 [x['oracles'] for x in obs['datasets']] or sc['verdict'] != obs['verdict'] \
-                or (case['shape'] and [x['t'] for x in sc['datasets']] != [x['t'] for x in obs['datasets']]):
+                or not all(rel_close(unbits(p), unbits(q), 1e-12) for x, y in zip(sc['datasets'], obs['datasets'])
+                           for p, q in zip(x['t'], y['t'])):
             ctx.oracle_failure(f'common rescaling of values and errors by {k} changes t / oracles / verdict' + tag,
                                case, key='rescaling')
             return
@@ -450,6 +476,8 @@ def run(ctx):
             ctx.count('raise_' + obs['raise'])
         elif 'malformed' in obs:
             ctx.count('malformed')
+        elif extreme_scale(case):
+            ctx.count('extreme_scale_not_sent_to_model')   # sqrt(e1^2+e2^2) vs hypot differ: either is fine
         else:
             done.append((case, obs))
     nshard = max(16, len(done) // 200)
@@ -470,7 +498,7 @@ def run(ctx):
     for chunk, out in zip(shards, outs):
         for i in common.parse_nat_list(out):
             case, obs = chunk[i]
-            ctx.mismatch('t statistic (bit-exact; 2^-40 for scalars), oracles, p-value decision or verdict of the '
+            ctx.mismatch('t statistic (within 2^-40), oracles, p-value decision or verdict of the '
                          'model differ from the implementation: ' + json.dumps(obs)[:400],
                          {'case': case, 'obs': obs})
     ctx.extra['model_cases_compared'] = len(done)
